@@ -35,7 +35,19 @@ func (c chg) declared() []fkey {
 	return fs
 }
 
-func scenarioWF(sc *scenario) bool {
+// tableChanges: the table-level changes (the theorems' WF / consistent speak of those only).
+func tableChanges(sc *scenario) []chg {
+	var cs []chg
+	for _, c := range sc.cs {
+		if c.kind != 'P' && c.kind != 'Q' {
+			cs = append(cs, c)
+		}
+	}
+	return cs
+}
+
+func scenarioWF(sc0 *scenario) bool {
+	sc := &scenario{cat: sc0.cat, cs: tableChanges(sc0)}
 	names := map[int]bool{}
 	dropped := map[int]bool{}
 	for _, c := range sc.cs {
@@ -92,7 +104,8 @@ func scenarioWF(sc *scenario) bool {
 	return true
 }
 
-func scenarioConsistent(sc *scenario) bool {
+func scenarioConsistent(sc0 *scenario) bool {
+	sc := &scenario{cat: sc0.cat, cs: tableChanges(sc0)}
 	tabs := map[int]bool{}
 	for _, t := range sc.cat.tabs {
 		tabs[t] = true
